@@ -47,7 +47,9 @@ CONSTANTS Vars,        \* e.g. {"a", "b"}
           Depth,       \* 1: compound statements with leaf bodies; 2: one compound nested in another
           PairBodies,  \* BOOLEAN: bodies of two leaves as well as of one
           Pre,         \* BOOLEAN: an assignment may stand before the compound statement
-          Post         \* BOOLEAN: a use may stand behind it
+          Post,        \* BOOLEAN: a use may stand behind it
+          TwoLoops     \* BOOLEAN: also programs in which a simple for loop (one assignment in its body) stands in front
+                       \*          of the compound statement: what the second statement reads of the first loop's variables
 
 Leaves ==
     (IF "asg" \in LeafKinds THEN {[k |-> "asg", w |-> w, r |-> r] : w \in Vars, r \in Reads} ELSE {})
@@ -81,7 +83,15 @@ Posts == {<<>>} \cup (IF Post THEN {<<l>> : l \in {x \in Plain : x.k = "use"}} E
 \* A seed fixes what stands around the compound statement and its kind and header; the programs of a seed are
 \* enumerated in a second step, so that TLC's workers share the enumeration (initial states are generated by one thread)
 Seeds == [pre : Pres, post : Posts, kind : Compounds, r : Reads]
-ProgramsOf(seed) == {seed.pre \o <<c>> \o seed.post : c \in {x \in Top(Depth) : x.k = seed.kind /\ x.r = seed.r}}
+\* (two-loop programs start with the initialisation the accumulating loop needs: v = <constant>)
+FirstLoops == {[k |-> "for", w |-> w, r |-> {}, body |-> <<l>>, orelse |-> <<>>] :
+                  w \in Vars, l \in {[k |-> "aug", w |-> v] : v \in Vars}}
+ProgramsOf(seed) ==
+    LET tops == {x \in Top(Depth) : x.k = seed.kind /\ x.r = seed.r} IN
+    {seed.pre \o <<c>> \o seed.post : c \in tops}
+    \cup (IF TwoLoops /\ seed.pre = <<>>
+           THEN {<<[k |-> "asg", w |-> v, r |-> {}], f, c>> \o seed.post : v \in Vars, f \in FirstLoops, c \in tops}
+           ELSE {})
 
 \* break / continue only inside loops (a sub-sequence of a loop body may start with them, but the harness also runs the
 \* programs, so they are kept inside)
